@@ -113,15 +113,18 @@ Definition uncached_ok (d : decl) (n : node) : Prop :=
   | DMemo _ _ => cache n = None -> st n = Dirty /\ rlog n = []
   | _ => True
   end.
-(* channel + waker + run queue discipline of a spawned effect that is not in the middle of an
-   iteration of its task loop *)
+(* channel + waker + run queue discipline of an effect: a dirty effect has a notification
+   pending (or missed one while paused); when the task is neither unspawned nor being polled,
+   the waker is registered or the task is in the run queue, a pending notification means the
+   waker was taken, and an effect that never ran is still dirty *)
 Definition queue_ok_n (rdy : list nat) (e : nat) (d : decl) (n : node) : Prop :=
   match d with
   | DEff _ _ _ =>
-      ealive n = true -> epoll n = false ->
-      edone n = false /\ (ereg n = false -> In e rdy) /\ (eflag n = true -> ereg n = false) /\
+      ealive n = true ->
       (edirty n = true -> eflag n = true \/ emissed n = true) /\
-      (hasrun_n d n = false -> eflag n = true \/ emissed n = true)
+      (epoll n = false ->
+         edone n = false /\ (ereg n = false -> In e rdy) /\ (eflag n = true -> ereg n = false) /\
+         (hasrun_n d n = false -> edirty n = true))
   | _ => True
   end.
 
@@ -161,9 +164,9 @@ Qed.
 Lemma queue_ok_view rdy e d n n' : nview_eq n n' -> queue_ok_n rdy e d n -> queue_ok_n rdy e d n'.
 Proof.
   unfold nview_eq, queue_ok_n, hasrun_n. intros (E0&E1&E2&E3&E4&E5&E6&E7&E8&E9&E10&E11&E12&E13).
-  destruct d as [| | |k ? ?]; auto. intros H Ha Hp.
-  rewrite E10 in Ha. rewrite E13 in Hp. specialize (H Ha Hp).
-  rewrite E6, E7, E8, E9, E11, E12. exact H.
+  destruct d as [| | |k ? ?]; auto. intros H Ha.
+  rewrite E10 in Ha. specialize (H Ha).
+  rewrite E6, E7, E8, E9, E11, E12, E13. exact H.
 Qed.
 
 (* the fields the queue discipline looks at *)
@@ -176,9 +179,9 @@ Proof. unfold nview_eq, qview_eq. intuition. Qed.
 Lemma queue_ok_qview rdy e d n n' : qview_eq n n' -> queue_ok_n rdy e d n -> queue_ok_n rdy e d n'.
 Proof.
   unfold qview_eq, queue_ok_n, hasrun_n. intros (E6&E7&E8&E9&E10&E11&E12&E13).
-  destruct d as [| | |k ? ?]; auto. intros H Ha Hp.
-  rewrite E10 in Ha. rewrite E13 in Hp. specialize (H Ha Hp).
-  rewrite E6, E7, E8, E9, E11, E12. exact H.
+  destruct d as [| | |k ? ?]; auto. intros H Ha.
+  rewrite E10 in Ha. specialize (H Ha).
+  rewrite E6, E7, E8, E9, E11, E12, E13. exact H.
 Qed.
 
 (* everything a node that is not running owes *)
@@ -208,6 +211,30 @@ Record Inv (stk : list nat) (t : nat) (s : state) : Prop := {
   inv_queue : forall e, queue_ok s e;
   inv_frame : forall k, In k stk -> Frame t s k
 }.
+
+(* the same with one node [x] exempted from its resting clauses and its queue discipline: the
+   effect whose task loop is between "dirty consumed" and "body started" *)
+Record InvBut (x : nat) (stk : list nat) (t : nat) (s : state) : Prop := {
+  ib_wf : WF s;
+  ib_err : err s = false;
+  ib_nocause : nocause s = 0;
+  ib_rest : forall i, ~ In i stk -> i <> x -> Rest s i;
+  ib_l1 : ~ In x stk -> L1 s x;
+  ib_queue : forall e, e <> x -> queue_ok s e;
+  ib_frame : forall k, In k stk -> Frame t s k
+}.
+
+Lemma Inv_InvBut x stk t s : Inv stk t s -> InvBut x stk t s.
+Proof.
+  intros I. split.
+  - apply I.
+  - apply I.
+  - apply I.
+  - intros i Hi _. apply (inv_rest _ _ _ I i Hi).
+  - intros Hx. destruct (inv_rest _ _ _ I x Hx) as (R1&_). exact R1.
+  - intros e _. apply (inv_queue _ _ _ I e).
+  - apply (inv_frame _ _ _ I).
+Qed.
 
 (* kinds *)
 Lemma memob_decl i : memob i = true -> exists c e, decl_of p i = DMemo c e.
